@@ -12,7 +12,20 @@ pub enum Op {
     /// one tick delivered to node `n`
     Feed { n: usize, x: Input, f: Fault },
     /// `len` clean ticks expanded deterministically from a stream descriptor (long uptimes)
-    Gen { n: usize, g: StreamDesc, skip: u64, len: u64 },
+    /// `every` > 0: every `every`-th tick is corrupted with `fault` (deterministically);
+    /// `reset_every` > 0: reset() is called before every `reset_every`-th tick
+    Gen {
+        n: usize,
+        g: StreamDesc,
+        skip: u64,
+        len: u64,
+        #[serde(default)]
+        fault: Option<Fault>,
+        #[serde(default)]
+        every: u64,
+        #[serde(default)]
+        reset_every: u64,
+    },
     Reset { n: usize },
     /// derived Clone of `src` becomes node `dst`
     Fork { src: usize, dst: usize },
